@@ -33,6 +33,8 @@ pub enum JobKind {
     Fault { entry: Entry, layer: fault::FaultLayer },
     Crash { entry: Entry },
     Compat,
+    /// C10 small-scope enumeration (exhaustive over its grid; run index = case index)
+    SnapGrid { backend: Backend, entry: Entry },
 }
 
 #[derive(Clone, Debug)]
@@ -53,6 +55,7 @@ pub fn gen(kind: &JobKind, seed: u64, idx: u64, thorough: bool) -> Plan {
         JobKind::Fault { entry, layer } => Plan::Fault(fault::gen_plan(seed, *entry, *layer, thorough)),
         JobKind::Crash { entry } => Plan::Crash(crash::gen_plan(seed, *entry, thorough)),
         JobKind::Compat => Plan::Compat(compat::gen_plan(seed, idx)),
+        JobKind::SnapGrid { backend, entry } => Plan::Seq(seq::gen_snapgrid(seed, idx, *backend, *entry)),
     }
 }
 
